@@ -64,6 +64,21 @@ type Spec struct {
 	NoCmd     bool        `json:"no_cmd,omitempty"`
 	// Establish: executing the command establishes the external conditions its checks test.
 	Establish bool `json:"establish,omitempty"`
+	// Breaks: executing the command leaves the checked conditions in a state the checks reject.
+	Breaks bool `json:"breaks,omitempty"`
+}
+
+// ExtFail is the externally caused failure mode of a target's command ("" | exit | omit |
+// break): flaky network, full disk ... it is not part of the target's definition.
+func (u *Universe) ExtFail(s *Spec) string {
+	k := u.Ext["fail_"+s.Label()]
+	if k == "omit" && len(s.Outs) == 0 {
+		return "exit"
+	}
+	if k == "break" && len(s.Checks) == 0 {
+		return "exit"
+	}
+	return k
 }
 
 func (s *Spec) Label() string { return "//" + s.Pkg + ":" + s.Name }
@@ -286,6 +301,17 @@ type CommandView struct {
 // RunDigest is the pure function every simulated command computes from what it read.
 func RunDigest(s *Spec, v *CommandView) string {
 	parts := []string{s.Label(), fmt.Sprint(s.Ver)}
+	if s.Proj == "parity" {
+		// label-independent command: two such targets in different packages produce identical
+		// outputs when their inputs have the same parity
+		parts = []string{"parity"}
+		for _, name := range sortedKeys(v.Inputs) {
+			if c := v.Inputs[name]; c != nil {
+				parts = append(parts, fmt.Sprint(len(*c)%2))
+			}
+		}
+		return hexDigest(parts...)
+	}
 	if !s.HasTag("multiplatform-cache") {
 		parts = append(parts, v.Platform)
 	}
@@ -322,7 +348,9 @@ func OutputListing(s *Spec, dg string) Listing {
 		base := path.Join(s.Pkg, o.Path)
 		switch o.Kind {
 		case "file":
-			l = append(l, Entry{Path: base, Kind: "file", Data: hexDigest(dg, o.Path)[:40] + "\n"})
+			h := hexDigest(dg, o.Path)
+			n := 8 + int(h[0])%40 // sizes vary with the content: restores meet longer and shorter old files
+			l = append(l, Entry{Path: base, Kind: "file", Data: h[:n] + "\n"})
 		case "bin":
 			l = append(l, Entry{Path: base, Kind: "file", Exec: true, Data: "#!sim\n" + hexDigest(dg, o.Path)[:24] + "\n"})
 		case "dir":
